@@ -356,6 +356,8 @@ class FnTr:
             return ("list", ("struct", "PyOp"))
         if isinstance(e, ast.Call) and isinstance(e.func, ast.Name) and e.func.id == "operation" and len(e.args) == 2:
             return ("struct", "PyOp")
+        if isinstance(e, ast.Call) and isinstance(e.func, ast.Name) and e.func.id == "seq_last" and len(e.args) == 1:
+            return ("struct", "PyOp")
         if isinstance(e, ast.Call) and isinstance(e.func, ast.Attribute) and e.func.attr in ("shift", "remove_useless_wm") \
                 and self.etype(e.func.value) == ("list", ("struct", "PyOp")):
             return ("list", ("struct", "PyOp"))
@@ -520,6 +522,8 @@ class FnTr:
             else:
                 idx = "(.single %s)" % self.expr(ix, "num")
             return '(PyOp.mk "%s" %s)' % (e.args[0].value, idx)
+        if isinstance(e, ast.Call) and isinstance(e.func, ast.Name) and e.func.id == "seq_last" and len(e.args) == 1:
+            return "(← seqLast %s)" % self.expr(e.args[0])
         if isinstance(e, ast.Call) and isinstance(e.func, ast.Attribute) and e.func.attr == "shift" and len(e.args) == 1 \
                 and self.etype(e.func.value) == ("list", ("struct", "PyOp")):
             return "(seqShift %s %s)" % (self.expr(e.func.value), self.expr(e.args[0], "num"))
@@ -1821,6 +1825,126 @@ def inline_revolver_params(fn, utils_tree):
     return fn
 
 
+KW_KEYS = ["uf", "ub"]
+
+
+def expand_kwargs(fn, utils_tree):
+    """`def f(…, **params)` whose body reads `params["uf"]`, `params["ub"]` (and `params["concat"]` inside the `Sequence`
+    constructor only): the keyword dictionary becomes the two explicit parameters `uf`, `ub`; `x = params["x"]`
+    disappears, `parameters = dict(params)` is an alias, a call `g(…, **params)` passes `uf=uf, ub=ub`.  In a function
+    WITHOUT `**params`, `params = revolver_parameters(a, b, c, d)` followed by `g(…, **params)` passes the values
+    the dict literal of utils.revolver_parameters gives these keys."""
+    import copy
+    fn = copy.deepcopy(fn)
+    has_kw = fn.args.kwarg is not None
+    aliases = set()
+    actual = None
+    if has_kw:
+        aliases.add(fn.args.kwarg.arg)
+        fn.args.kwarg = None
+        fn.args.args = fn.args.args + [ast.arg(arg=k) for k in KW_KEYS]
+        fn.args.defaults = list(fn.args.defaults)
+    rp = find_def(utils_tree, "revolver_parameters")
+    formals = [a.arg for a in rp.args.args]
+    lit = None
+    for st in ast.walk(rp):
+        if isinstance(st, ast.Dict):
+            lit = st
+            break
+    if lit is None:
+        raise Unsupported("revolver_parameters no longer builds a dict literal")
+    table = {k.value: v for k, v in zip(lit.keys, lit.values) if isinstance(k, ast.Constant)}
+    for st in ast.walk(fn):
+        if isinstance(st, ast.Assign) and len(st.targets) == 1 and isinstance(st.targets[0], ast.Name) \
+                and isinstance(st.value, ast.Call) and isinstance(st.value.func, ast.Name):
+            if st.value.func.id == "dict" and len(st.value.args) == 1 and isinstance(st.value.args[0], ast.Name) \
+                    and st.value.args[0].id in aliases:
+                aliases.add(st.targets[0].id)
+            elif st.value.func.id == "revolver_parameters" and not has_kw and len(st.value.args) == len(formals) \
+                    and not st.value.keywords:
+                aliases.add(st.targets[0].id)
+                actual = dict(zip(formals, st.value.args))
+
+    def value_of(key):
+        if has_kw:
+            return ast.Name(id=key, ctx=ast.Load())
+        if key not in table:
+            raise Unsupported("revolver_parameters gives no %s" % key)
+
+        class Arg(ast.NodeTransformer):
+            def visit_Name(s3, n2):
+                return copy.deepcopy(actual[n2.id]) if n2.id in actual else n2
+        return Arg().visit(copy.deepcopy(table[key]))
+
+    class Sub(ast.NodeTransformer):
+        def visit_Assign(s2, node):
+            if len(node.targets) == 1 and isinstance(node.targets[0], ast.Name):
+                t, v = node.targets[0].id, node.value
+                if isinstance(v, ast.Subscript) and isinstance(v.value, ast.Name) and v.value.id in aliases \
+                        and isinstance(v.slice, ast.Constant) and v.slice.value == t and t in KW_KEYS and has_kw:
+                    return ast.copy_location(ast.Pass(), node)
+                if t in aliases and isinstance(v, ast.Call) and isinstance(v.func, ast.Name) and \
+                        v.func.id in ("dict", "revolver_parameters"):
+                    return ast.copy_location(ast.Pass(), node)
+                if isinstance(v, ast.Call) and isinstance(v.func, ast.Name) and v.func.id == "partial" and v.args \
+                        and isinstance(v.args[0], ast.Name) and v.args[0].id in ("Op", "Operation"):
+                    return ast.copy_location(ast.Pass(), node)
+                if isinstance(v, ast.Call) and isinstance(v.func, ast.Name) and v.func.id == "Sequence":
+                    node.value = ast.copy_location(ast.Call(func=ast.Name(id="Sequence", ctx=ast.Load()), args=[], keywords=[]), v)
+                    return node
+            s2.generic_visit(node)
+            return node
+
+        def visit_Call(s2, node):
+            s2.generic_visit(node)
+            kws = []
+            for kw in node.keywords:
+                if kw.arg is None:
+                    if not (isinstance(kw.value, ast.Name) and kw.value.id in aliases):
+                        raise Unsupported("** of something else than the parameter dictionary")
+                    kws.extend(ast.keyword(arg=k, value=value_of(k)) for k in KW_KEYS)
+                else:
+                    kws.append(kw)
+            node.keywords = kws
+            return node
+    fn = Sub().visit(fn)
+    for x in ast.walk(fn):
+        if isinstance(x, ast.Name) and x.id in aliases:
+            raise Unsupported("the parameter dictionary %s is used in a way the translator has no rule for" % x.id)
+    ast.fix_missing_locations(fn)
+    return fn
+
+
+def last_leaf_pattern(fn):
+    """`aux = sequence; while aux.type == 'Function': aux = aux.sequence[-1]` followed by uses of `aux.type`: the walk
+    to the last leaf of the sequence tree.  With a Sequence as the flattened operation list this is its last
+    element (IndexError if empty, as `aux.sequence[-1]` of an empty sub-sequence): the two statements become
+    `aux = seq_last(sequence)`."""
+    import copy
+    fn = copy.deepcopy(fn)
+
+    def fix(stmts):
+        i = 0
+        while i < len(stmts):
+            st = stmts[i]
+            for sub in ("body", "orelse"):
+                if isinstance(getattr(st, sub, None), list):
+                    fix(getattr(st, sub))
+            if i + 1 < len(stmts) and isinstance(st, ast.Assign) and len(st.targets) == 1 \
+                    and isinstance(st.targets[0], ast.Name) and isinstance(st.value, ast.Name) \
+                    and isinstance(stmts[i + 1], ast.While):
+                a, w = st.targets[0].id, stmts[i + 1]
+                if ast.unparse(w.test) in ("%s.type == 'Function'" % a,) and len(w.body) == 1 and not w.orelse \
+                        and ast.unparse(w.body[0]) == "%s = %s.sequence[-1]" % (a, a):
+                    st.value = ast.copy_location(ast.Call(func=ast.Name(id="seq_last", ctx=ast.Load()),
+                                                          args=[st.value], keywords=[]), st.value)
+                    del stmts[i + 1]
+            i += 1
+    fix(fn.body)
+    ast.fix_missing_locations(fn)
+    return fn
+
+
 def find_def(tree, qual):
     parts = qual.split(".")
     body = tree.body
@@ -1861,6 +1985,10 @@ CACHE_STEP_EXPECTED = """def cache_step(fn):
     return wrapped_fn
 """
 
+HTAB = ("opt", ("list", ("list", ("list", "ER"))))
+HREV_T = {"cvect": ("list", "Int"), "wvect": ("list", "Rat"), "rvect": ("list", "Rat"), "hoptp": HTAB, "hopt": HTAB,
+          "uf": "Rat", "ub": "Rat"}
+
 # (file, qualified name, lean name, parameter types, options)
 FUNCTIONS = [
     ("multistage.py", "optimal_extra_steps", "optimal_extra_steps", {}, {"recursive": True, "cache_step": True}),
@@ -1892,6 +2020,14 @@ FUNCTIONS = [
     ("hrevolve_sequences/periodic_disk_revolve.py", "periodic_disk_revolve", "periodic_disk_revolve",
      {"rd": "Rat", "wd": "Rat", "uf": "Rat", "ub": "Rat", "opt_0": ("opt", ("list", ("list", "Rat"))), "mmax": ("opt", "Int")},
      {"revolver_params": True, "consts": {"opt_1d": None}, "drop_params": ["opt_1d"], "fold_bools": True}),
+    ("hrevolve_sequences/basic_functions.py", "argmin", "argmin_er", {"list": ("list", "ER")}, {}),
+    ("hrevolve_sequences/hrevolve.py", "hrevolve_aux", "hrevolve_aux", HREV_T,
+     {"recursive": True, "kwargs": True, "last_leaf": True, "mutual": "hrev", "ret": ["list", ("struct", "PyOp")]}),
+    ("hrevolve_sequences/hrevolve.py", "hrevolve_recurse", "hrevolve_recurse", HREV_T,
+     {"recursive": True, "kwargs": True, "mutual": "hrev", "ret": ["list", ("struct", "PyOp")]}),
+    ("hrevolve_sequences/hrevolve.py", "hrevolve", "hrevolve",
+     {"cvect": ("list", "Int"), "wvect": ("list", "Rat"), "rvect": ("list", "Rat"), "fwd_cost": "Rat", "bwd_cost": "Rat"},
+     {"kwargs": True}),
     ("hrevolve.py", "_convert_action", "convert_action", {"action": ("struct", "PyOp")}, {"split_dict_keys": True}),
     ("hrevolve.py", "_last_reads", "last_reads", {"schedule": ("list", ("struct", "PyOp"))}, {}),
 ]
@@ -2025,40 +2161,84 @@ def generate(repo):
         pass
     ctx = Ctx(enums, {}, consts)
     late_chunks = []
+
+    def prepare(f, qual, opts):
+        node = find_def(tree(f), qual)
+        decos = [ast.unparse(d) for d in node.decorator_list]
+        want_cache = bool(opts.get("cache_step"))
+        has_cache = "cache_step" in decos
+        if has_cache != want_cache:
+            raise Unsupported("decorators changed: %s" % decos)
+        if has_cache and not cache_ok:
+            raise Unsupported("cache_step changed")
+        for d in decos:
+            if d not in ("cache_step", "njit"):
+                raise Unsupported("decorator %s" % d)
+        if opts.get("kwargs"):
+            node = expand_kwargs(node, tree("hrevolve_sequences/utils.py"))
+        if opts.get("last_leaf"):
+            node = last_leaf_pattern(node)
+        if node.args.vararg or node.args.kwarg:
+            raise Unsupported("*args/**kwargs")
+        if opts.get("split_dict_keys"):
+            node = split_dict_keys(node)
+        if opts.get("revolver_params"):
+            node = inline_revolver_params(node, tree("hrevolve_sequences/utils.py"))
+        if opts.get("consts") is not None:
+            node = prune_constants(node, opts["consts"], fold_bools=bool(opts.get("fold_bools")))
+            drop = set(opts.get("drop_params", []))
+            node._orig_params = [a.arg for a in node.args.args] + [a.arg for a in node.args.kwonlyargs]
+            node._dropped = drop
+            node.args.args = [a for a in node.args.args if a.arg not in drop]
+        return node, has_cache
+
+    groups = {}
     for f, qual, lean, ptypes, opts in FUNCTIONS:
+        if opts.get("mutual"):
+            groups.setdefault(opts["mutual"], []).append((f, qual, lean, ptypes, opts))
+    group_done = set()
+    group_text = {}
+    for f, qual, lean, ptypes, opts in FUNCTIONS:
+        g = opts.get("mutual")
+        if g and g not in group_done:
+            # mutually recursive functions: the signatures of the whole group are registered before any body is translated
+            group_done.add(g)
+            try:
+                for f2, qual2, lean2, ptypes2, opts2 in groups[g]:
+                    node2, _ = prepare(f2, qual2, opts2)
+                    ps = [a.arg for a in node2.args.args] + [a.arg for a in node2.args.kwonlyargs]
+                    ctx.fns[qual2] = Fn(lean2, ps, tuple(opts2["ret"]) if isinstance(opts2["ret"], list) else opts2["ret"],
+                                        True, {p: ptypes2.get(p, "Int") for p in ps}, list(ps), ())
+            except (Unsupported, SyntaxError, OSError, KeyError, IndexError, TypeError, AttributeError) as e:
+                for f2, qual2, lean2, ptypes2, opts2 in groups[g]:
+                    status[lean2] = "untranslatable: %s: %s" % (type(e).__name__, e)
+                    ctx.fns.pop(qual2, None)
+        if g and status.get(lean, "").startswith("untranslatable"):
+            continue
         try:
-            node = find_def(tree(f), qual)
-            decos = [ast.unparse(d) for d in node.decorator_list]
-            want_cache = bool(opts.get("cache_step"))
-            has_cache = "cache_step" in decos
-            if has_cache != want_cache:
-                raise Unsupported("decorators changed: %s" % decos)
-            if has_cache and not cache_ok:
-                raise Unsupported("cache_step changed")
-            for d in decos:
-                if d not in ("cache_step", "njit"):
-                    raise Unsupported("decorator %s" % d)
-            if node.args.vararg or node.args.kwarg:
-                raise Unsupported("*args/**kwargs")
-            if opts.get("split_dict_keys"):
-                node = split_dict_keys(node)
-            if opts.get("revolver_params"):
-                node = inline_revolver_params(node, tree("hrevolve_sequences/utils.py"))
-            if opts.get("consts") is not None:
-                node = prune_constants(node, opts["consts"], fold_bools=bool(opts.get("fold_bools")))
-                drop = set(opts.get("drop_params", []))
-                node._orig_params = [a.arg for a in node.args.args] + [a.arg for a in node.args.kwonlyargs]
-                node._dropped = drop
-                node.args.args = [a for a in node.args.args if a.arg not in drop]
+            node, has_cache = prepare(f, qual, opts)
             tr = FnTr(ctx, node, qual.split(".")[-1], lean, ptypes, bool(opts.get("recursive")),
                       cache_step=has_cache, src="%s:%d-%d" % (f, node.lineno, node.end_lineno))
             text, fuel = tr.emit()
-            (late_chunks if f == "hrevolve.py" else chunks).append(text)
-            ctx.fns[lean if lean != qual.split(".")[-1] and qual.split(".")[-1] in ctx.fns else qual.split(".")[-1]] = \
-                Fn(lean, tr.params, tr.ret, fuel, dict(tr.ptypes), tr.orig_params, tr.dropped)
+            if g:
+                if tr.ret != ctx.fns[qual].ret:
+                    raise Unsupported("return type %r of a mutually recursive function is not the declared %r" % (tr.ret, ctx.fns[qual].ret))
+                group_text.setdefault(g, []).append(text)
+                if len(group_text[g]) == len(groups[g]):
+                    (late_chunks if f == "hrevolve.py" else chunks).append("mutual\n\n" + "\n\n".join(group_text[g]) + "\n\nend")
+            else:
+                (late_chunks if f == "hrevolve.py" else chunks).append(text)
+                ctx.fns[lean if lean != qual.split(".")[-1] and qual.split(".")[-1] in ctx.fns else qual.split(".")[-1]] = \
+                    Fn(lean, tr.params, tr.ret, fuel, dict(tr.ptypes), tr.orig_params, tr.dropped)
             status[lean] = "ok"
         except (Unsupported, SyntaxError, OSError, KeyError, IndexError, TypeError, AttributeError) as e:
             status[lean] = "untranslatable: %s: %s" % (type(e).__name__, e)
+            if g:
+                # a group is translated completely or not at all
+                for f2, qual2, lean2, ptypes2, opts2 in groups[g]:
+                    if not status.get(lean2, "").startswith("untranslatable"):
+                        status[lean2] = "untranslatable: its mutual-recursion partner %s is: %s" % (lean, e)
+                group_text[g] = [None] * (len(groups[g]) + 1)
     if "StorageType" in enums:
         chunks.insert(len(enums), ACTION_TEXT)
         chunks.extend(late_chunks)
